@@ -148,6 +148,41 @@ CHECKS = {
                 'exercised by the heap checks.',
         'technique': 'Coq subset lemmas for admission and textual leaves + both-levels model differential + oracle',
     },
+    'C13': {
+        'text': 'Partial proof (36 theorems). An implementation-shaped Gallina model of the DT/TM/DTM/NM/SI factories '
+                '(length-based format choice, offset regex + str.replace, CPython strptime alternatives incl. the '
+                'space-padded day, Decimal/int fragments, max length, STRICT raise vs TOLERANT fallback) and independent '
+                'specification recognisers from the HL7 grammar. For DT, TM and DTM the acceptance set is characterised '
+                'EXACTLY for all strings (accepts = spec || explicitly defined defect family: C13_accept_*_partial), the '
+                'full statements are refuted with computed witnesses (F10), round trips are proved (C13_roundtrip_*), '
+                'TOLERANT totality and verbatim fallback (C13_tolerant_total/_verbatim), max length (C13_maxlength); '
+                'offset grid, formats and length limits are regenerated from /repo each run. 1.25M factory evaluations '
+                '(exhaustive strings to length 5, time/offset/calendar grids) are judged by the oracle and sampled '
+                'against the Coq model.',
+        'design_ref': 'DESIGN.md section 7 C13',
+        'note': 'Trusted: Coq kernel + vm_compute; gen_params.py; harness c13.py. No axioms. Model domain: ASCII, NM '
+                'exponents <= 18 digits. Not proved: "same number" for every conforming NM (oracle checks it with '
+                'Fraction). Recorded findings: F10 families, F22 (non-ASCII digits).',
+        'technique': 'Coq proof of exact acceptance sets over an implementation-shaped datatype model + exhaustive '
+                     'short-string/grid differential',
+    },
+    'C19': {
+        'text': 'Partial proof. Threads as lists of atomic dict/import actions over a store of shared and thread-local '
+                'maps (Model/Sched.v); C19_noninterference: for ALL programs and ALL schedules, if no action writes a map '
+                'another thread can reach (decidable premise) every thread observes exactly its solo results; the action '
+                'lists of datatype_factory / load_library / Group.__init__ / _escape_value satisfy the premise '
+                '(C19_factory_ok, C19_calls_ok); with Alias in place of Copy (the pre-1.3.5 shape) a computed 2-thread '
+                'schedule gives a wrong result (C19_alias_refuted). The action lists are not asserted: they are extracted '
+                'from the running code with instrumented dicts/importlib and compared inside Coq; shared-object '
+                'fingerprints, identity facts at touch points, cold/warm stress rounds and ~930 forced-schedule '
+                'experiments compare every concurrent result with its solo result.',
+        'design_ref': 'DESIGN.md section 7 C19',
+        'note': 'Trusted: Coq kernel + vm_compute; harness c19.py (instrumentation via sys.setprofile / dict subclasses, '
+                'forked solo runs). No axioms. The model cannot exhibit bytecode-level interleaving, the import lock or '
+                'CPython dict internals: that half is observed (sampled), not proved.',
+        'technique': 'Coq non-interference proof over extracted action lists + traced touch points, fingerprints, forced '
+                     'schedules and stress differential',
+    },
 }
 
 NOT_YET = {}
